@@ -172,7 +172,25 @@ pub(crate) fn m_descendant_self() {
     assert!(got == vec!["i1".to_string(), "i2".to_string()], "-n+2 coloured {:?}", got);
 }
 
+/// Exactly display:none and the zero-height + hidden-overflow idiom hide an element (public API).
+pub(crate) fn m_display_none() {
+    let _which: u8 = kani::any();
+    let html = "<div style=\"height:0;overflow:hidden\">hida</div><div style=\"overflow:hidden\">visa</div>\
+                <div style=\"height:0\">visb</div><p style=\"display:none\">hidb</p><p style=\"display:block\">visc</p>\
+                <div style=\"max-height:0; overflow-y:hidden\">hidc</div><div style=\"height:1px;overflow:hidden\">visd</div>";
+    let out = crate::config::plain().use_doc_css().string_from_read(html.as_bytes(), 60).expect("renders");
+    for w in ["visa", "visb", "visc", "visd"] {
+        assert!(out.contains(w), "{} should be visible: {:?}", w, out);
+    }
+    for w in ["hida", "hidb", "hidc"] {
+        assert!(!out.contains(w), "{} should be hidden: {:?}", w, out);
+    }
+    // without use_doc_css, styles in the document have no effect
+    let out2 = crate::config::plain().string_from_read(html.as_bytes(), 60).expect("renders");
+    assert!(out2.contains("hida") && out2.contains("hidb") && out2.contains("hidc"));
+}
+
 crate::verif_common::registry! {
-    m_descendant_self, m_css_progress, m_nth_parse, m_nth_child,
+    m_display_none, m_descendant_self, m_css_progress, m_nth_parse, m_nth_child,
     s3_selector_specificity,
 }
